@@ -147,7 +147,7 @@ class Ctx:
 
     def n(self, quick, thorough):
         """per-part iteration budget."""
-        tot = thorough if self.thorough else quick
+        tot = thorough if self.thorough else quick * int(os.environ.get("VERIF_QUICK_SCALE", "4"))
         return max(1, tot // self.nparts)
 
     def corr(self, line, extra=None):
@@ -183,9 +183,46 @@ class Ctx:
                 "samples": self.samples}
 
 
-def same(impl_out, model_out):
+def _median(xs):
+    xs = sorted(xs)
+    n = len(xs)
+    return xs[n // 2] if n % 2 else (xs[n // 2 - 1] + xs[n // 2]) / 2
+
+
+def same_cap(impl_out, model_out):
+    """`cap` lines compare floats of the implementation with exact rationals of the model:
+    capacity within 1e-8, per-iteration eigenvalue estimates within 1e-9 relative on the common
+    prefix; the stop index may differ by at most 2 iterations (stopping inequality at threshold)."""
+    import math
+    try:
+        a, b = impl_out.split(" "), model_out.split(" ")
+        if a[0] != "ok" or b[0] != "ok":
+            return impl_out == model_out
+        cap = float(a[1])
+        res = [int(x) / 1e18 for x in b[1].split(",")]
+        mcap = _median([math.log2(x) for x in res])
+        if abs(cap - mcap) > 1e-8:
+            return False
+        ra = [[2.0 ** float(x) for x in r.split(",")] for r in a[2].split(";")]
+        rb = [[int(x) / 1e18 for x in r.split(",")] for r in b[2].split(";")]
+        if len(ra) != len(rb):
+            return False
+        for x, y in zip(ra, rb):
+            if abs(len(x) - len(y)) > 2:
+                return False
+            for p, q in zip(x, y):
+                if abs(p - q) > 1e-9 * max(1.0, abs(q)):
+                    return False
+        return True
+    except Exception:
+        return False
+
+
+def same(line, impl_out, model_out):
     if impl_out == model_out:
         return True
+    if line.startswith("cap "):
+        return same_cap(impl_out, model_out)
     return impl_out in NONTERM and model_out in NONTERM
 
 
